@@ -26,6 +26,9 @@ CLAIMED["C08"]=("Bounded symbolic execution of the real evaluator over 26 templa
 CLAIMED["C18"]=("Bounded symbolic execution of the real ==, !=, <=> built-ins and the native Comparable/BaseObj/Iterable sources through parsed programs: operands of 14 value kinds with symbolic payloads (any int64, any float64 bit pattern, ...); on every feasible path z3 discharges reflexivity (except NaN), symmetry, != as negation, trichotomy, <=/>= as unions, antisymmetry of <=>, agreement of max/min/between?/clip, and transitivity on triples. Counterexamples with a NaN operand are a recorded known finding.",
         TRUST,
         "SMT-decided bounded symbolic execution of go/ssa (z3, bit-vectors + FP)")
+CLAIMED["C13"]=("Bounded symbolic execution of the real Obj#try / Either*#fmap / A / val / err / or built-ins and the native Wrappable/Either sources through parsed programs: chains of 1..2 (thorough 1..3) steps in every combination of property call, literal call and chain-form operator call, with the failing step K and the error kind solver-chosen; on every feasible path z3 discharges that the wrapped chain calls exactly the steps the plain chain calls, never raises, and that A/val/err/val?/err?/or/abandon/catch/ignore all describe the plain chain's outcome (same error type and message, or the identical value).",
+        TRUST,
+        "SMT-decided bounded symbolic execution of go/ssa (z3, bit-vectors); symbolic fault position")
 NA={
 }
 DEFAULT_NA="check under construction in this session (engine exists; harness not yet registered)"
